@@ -17,4 +17,4 @@ Definition ord_seq : list Z -> list Z := fun ks => ks.
 Definition ord_rev : list Z -> list Z := @rev Z.
 Definition ord_rot : list Z -> list Z := fun ks => match ks with [] => [] | k :: r => r ++ [k] end.
 
-Extraction "ocaml/parfp.ml" run_fp first_race races nontrivial_pars mk_qc qc_num qc_den ord_seq ord_rev ord_rot.
+Extraction "_build/parfp.ml" run_fp first_race races nontrivial_pars mk_qc qc_num qc_den ord_seq ord_rev ord_rot.
